@@ -43,6 +43,24 @@ fn main() {
         }
         return;
     }
+    if args.len() >= 3 && args[1] == "run-scn" {
+        // debugging aid: run the scenario stored in a replay file (or a bare scenario JSON) with all basic oracles
+        let txt = std::fs::read_to_string(&args[2]).expect("cannot read file");
+        let v: serde_json::Value = serde_json::from_str(&txt).expect("not JSON");
+        let sv = if v.get("case_desc").is_some() { v["case_desc"]["scenario"].clone() } else { v };
+        let s: scn::Scn = serde_json::from_value(sv).expect("not a scenario");
+        let all = args.get(3).is_none_or(|a| a != "--no-oracles");
+        let o = if all { world::Oracles { c12_running: false, ..world::Oracles::all_basic() } } else { world::Oracles::default() };
+        let c = world::run_scn(&s, o);
+        for vv in &c.viols {
+            println!("VIOL [{}] {} -- {} [node {} t={}ms]", vv.prop, vv.clause, vv.detail, vv.node, vv.t_ms);
+        }
+        for l in gen::world_witness(&c) {
+            println!("{l}");
+        }
+        println!("end t={}ms hit_limit={}", (c.end_t - base::T0) / base::MS, c.hit_limit);
+        return;
+    }
     if args.len() < 3 || args[1] != "check" {
         usage();
     }
